@@ -646,6 +646,32 @@ func (env *SpecEnv) call(x *SExpr) (sval, error) {
 			return sval{}, err
 		}
 		return sval{app(SInt, "rune_count", s.t), types.Typ[types.Int]}, nil
+	case "heapfield":
+		// heapfield("pkg.Type.field"): the whole map object -> field value, for
+		// postconditions of the form "no object's field changed"
+		if len(args) == 1 && args[0].Op == "str" {
+			parts := strings.Split(args[0].Name, ".")
+			if len(parts) == 3 {
+				t, err := env.resolveType(parts[0] + "." + parts[1])
+				if err != nil {
+					return sval{}, err
+				}
+				i := fieldIndex(t, parts[2])
+				if i < 0 {
+					return sval{}, fmt.Errorf("heapfield: no field %s", args[0].Name)
+				}
+				fs := e.structFieldSort(t, i)
+				return sval{e.family(env.cur, fieldFamily(t, i), arraySort(SInt, fs)), nil}, nil
+			}
+		}
+		return sval{}, fmt.Errorf("heapfield: expected \"pkg.Type.field\"")
+	case "failed":
+		// ghost state of a bufio.Writer: some write or flush has failed (sticky)
+		a, err := env.eval(args[0])
+		if err != nil {
+			return sval{}, err
+		}
+		return sval{sel(e.family(env.cur, "Writer.failed", arraySort(SInt, SBool)), a.t, SBool), types.Typ[types.Bool]}, nil
 	case "fs_exists":
 		// ghost file system: the path exists (os.Lstat succeeds)
 		a, err := env.eval(args[0])
